@@ -28,7 +28,9 @@ def macroscopic(x_from, x_to, scale):
 def _solve(P, x0=None, **kw):
     from lbfgsb import minimize_lbfgsb
 
-    return minimize_lbfgsb(x0=(P.x0 if x0 is None else x0).copy(), fun=P.f, jac=P.g, bounds=P.bounds, **kw)
+    kw = dict(kw)
+    jac = kw.pop("jac", P.g)
+    return minimize_lbfgsb(x0=(P.x0 if x0 is None else x0).copy(), fun=P.f, jac=jac, bounds=P.bounds, **kw)
 
 
 SMOOTH = ("qp", "qp4", "qpsp", "qpcos", "rosen", "osc")
@@ -131,13 +133,17 @@ def gen_C07(tier, rng):
     for i in range(N):
         cfg = dict(maxcor=int(rng.integers(1, 8)), ftol=float(rng.choice([0.0, 1e-9])), gtol=1e-9, maxiter=int(rng.integers(1, 14)),
                    maxfun=int(rng.integers(3, 200)), maxls=int(rng.integers(1, 21)))
-        yield dict(spec=_spec(rng, SMOOTH + ("bad", "bench"), nmax=8), cfg=cfg)
+        mode = "callable" if rng.random() < 0.75 else str(rng.choice(["2-point", "3-point"]))
+        yield dict(spec=_spec(rng, SMOOTH + ("bad", "bench"), nmax=8 if mode == "callable" else 4), cfg=cfg, mode=mode)
 
 
 def eval_C07(case):
     P = gen.make_problem(case["spec"])
-    cfg = case["cfg"]
-    R = run_instrumented(P, cfg)
+    cfg = dict(case["cfg"])
+    mode = case.get("mode", "callable")
+    if mode != "callable":
+        cfg["jac"] = mode          # finite-difference runs: nfev and njev differ, so a counter mix-up at restart shows
+    R = run_instrumented(P, {k: v for k, v in cfg.items() if k != "jac"}, jac=mode)
     if R.exc is not None:
         return _out(f"run raised {type(R.exc).__name__}: {R.exc}", signature="C07 exception")
     r0 = _solve(P, **cfg)
@@ -173,6 +179,9 @@ def eval_C07(case):
             sk = pairs_of(sc)[0]
             prev = R.snaps[i - 1][1].x if i >= 1 else np.clip(P.x0, P.lb, P.ub)
             acc = sk.shape[0] > 0 and beq(sk[-1], sc.x - prev)
+            if close(c.x, nxt.x, scale) and c.nit == nxt.nit and c.nfev == nxt.nfev and c.njev != nxt.njev:
+                fail = f"restart from callback state {k}: same continuation but njev {c.njev} != {nxt.njev} of the uninterrupted run"
+                break
             if not (close(c.x, nxt.x, scale) and c.nit == nxt.nit):
                 if acc or beq(sc.x, prev):
                     fail = f"restart from callback state {k}: next iterate differs from the uninterrupted run by {float(np.max(np.abs(c.x - nxt.x))):.3e}"
